@@ -1691,6 +1691,17 @@ def set_remove(eng, s, x):
     set_discard(eng, s, x)
 
 
+def set_pop(eng, s):
+    """set.pop(): removes and returns an arbitrary member; KeyError on the empty set."""
+    if s.ty is None:
+        eng.maybe_raise(False, 'KeyError')
+    eng.maybe_raise(s.e != s.ty.empty(), 'KeyError')
+    x = eng.fresh(s.ty.t, 'popped')
+    eng.assume(z3.Select(s.e, x))
+    s.e = z3.Store(s.e, x, False)
+    return wrap(s.ty.t, x)
+
+
 def set_update(eng, s, *others):
     for o in others:
         it = make_iter(eng, o)
@@ -2239,6 +2250,7 @@ def install(eng):
     M[('dict', 'copy')] = list_copy
     M[('set', 'add')] = set_add
     M[('set', 'discard')] = set_discard
+    M[('set', 'pop')] = set_pop
     M[('set', 'remove')] = set_remove
     M[('set', 'update')] = set_update
     M[('set', 'copy')] = list_copy
